@@ -369,6 +369,7 @@ Alts(nt) ==
             A(1, <<T(">"), T("o1"), M("simple["), T("if")>> \o WLit("if") \o <<T("a")>> \o WLit("a") \o <<M("]simple"), M("r["), M("rop:>")>> \o WLit("o1") \o <<M("]r")>>),
             A(1, <<T("<"), T("i1"), M("simple["), T("!")>> \o WLit("!") \o <<T("{")>> \o WLit("{") \o <<M("]simple"), M("r["), M("rop:<")>> \o WLit("i1") \o <<M("]r")>>),
             A(1, <<M("simple["), Same(nt, "assign"), T("for")>> \o WLit("for") \o <<T("x")>> \o WLit("x") \o <<M("]simple")>>),
+            A(1, <<M("simple["), Same(nt, "assign"), T(">"), T("o1"), T("if")>> \o WLit("if") \o <<T("x")>> \o WLit("x") \o <<M("]simple"), M("r["), M("rop:>")>> \o WLit("o1") \o <<M("]r")>>),
             A(1, <<T("2"), TA(">&"), TA("1"), M("simple["), Same(nt, "assign"), Same(nt, "cword"), Same(nt, "args"), M("]simple"),
                    M("r["), M("n:2"), M("rop:>&")>> \o WLit("1") \o <<M("]r")>>),
             A(1, <<M("simple["), Same(nt, "assign"), T("<"), T("i1"), Same(nt, "cword"), T(">>"), TA("o2"), Same(nt, "args"), M("]simple"),
@@ -377,6 +378,8 @@ Alts(nt) ==
     [] nt.n = "assign" ->
          << A(0, <<M("as["), T("x="), M("name:x"), M("asop:="), TA("1")>> \o WLit("1") \o <<M("]as")>>),
             A(1, <<M("as["), T("y_2="), M("name:y_2"), M("asop:="), M("w["), M("]w"), M("]as")>>),
+            \* a name with a letter outside ASCII (UxE9 is spelled U+00E9 in the source text), a short value
+            A(1, <<M("as["), T("UxE9="), M("name:UxE9"), M("asop:="), TA("x")>> \o WLit("x") \o <<M("]as")>>),
             A(1, <<M("as["), T("x="), M("name:x"), M("asop:="), P(nt, NT("word", nt.d, nt.top, nt.nh, TRUE, "")), M("]as")>>) >>
     [] nt.n = "cword" ->   \* a word in command position: not a reserved word, not an assignment, no alias
          << A(0, <<T("a")>> \o WLit("a")),
